@@ -180,9 +180,17 @@ def prepare_root(ctx, bins):
     shutil.copytree(os.path.join(vlib.REPO, "std"), os.path.join(root, "std"))
     shutil.copy(os.path.join(vlib.REPO, "wuffs-root-directory.txt"), root)
     env = {"PATH": os.path.dirname(bins["wuffs"]) + ":" + os.environ.get("PATH", "")}
-    r = ctx.run([bins["wuffs"], "gen"], cwd=root, env=env, timeout=900)
+    r = ctx.run([bins["wuffs"], "gen"], cwd=root, env=env, timeout=1800)
     if r.returncode != 0:
-        raise ToolingError("wuffs gen failed in the scratch root:\n" + (r.stdout + r.stderr)[-3000:])
+        # The tool chain under test cannot even translate std (e.g. it crashes
+        # on it): go on without the `use` files - the std sources are part of
+        # the corpus, so the crash is found and reported through the harness.
+        ctx.log("wuffs gen failed on std in the scratch root (continuing with base only): " + (r.stdout + r.stderr)[-400:].replace("\n", " | "))
+        os.makedirs(os.path.join(root, "gen", "c"), exist_ok=True)
+        rb = ctx.run([bins["wuffs-c"], "gen", "-package_name", "base"], cwd=root, env=env, timeout=600)
+        if rb.returncode != 0:
+            raise ToolingError("wuffs-c gen -package_name base failed:\n" + rb.stderr[-2000:])
+        open(os.path.join(root, "gen", "c", "wuffs-base.c"), "w").write(rb.stdout)
     if not os.path.exists(os.path.join(root, "gen", "c", "wuffs-base.c")):
         raise ToolingError("wuffs gen did not write gen/c/wuffs-base.c")
     return root
@@ -201,7 +209,8 @@ def load_known_witnesses():
             w = json.load(open(p))
         except Exception as e:
             raise ToolingError("bad witness file %s: %s" % (p, e))
-        out.append((os.path.basename(p), w))
+        if "source" in w:       # the deep (generator) witnesses are reached by the deep run, not re-run one by one
+            out.append((os.path.basename(p), w))
     return out
 
 
@@ -434,10 +443,13 @@ def run(ctx, only_sources=None):
     samples = []
     rng = ctx.rng
     lines = [l for l in open(srcp)]
-    for l in rng.sample(lines, min(10, len(lines))):
+    tr_by_id = {t["id"]: t for t in traces}
+    for l in rng.sample(lines, min(40, len(lines))):
         s = json.loads(l)
         text = src_text(s).decode("utf-8", "replace")
-        tr = [t for t in traces if t["id"] == s["id"]][0]
+        tr = tr_by_id.get(s["id"])
+        if tr is None or len(samples) >= 10:
+            continue
         samples.append({"origin": s["o"], "source": text[-400:] if s["o"].startswith("tlc-") else text[:400], "events": tr["ev"], "first_error": tr.get("err", "")[:200]})
     ctx.evidence("exploration", {
         "evaluations": len(alltr),
